@@ -31,5 +31,5 @@ MUTATIONS = [
          new="        if self.last_point is not None and t > self.last_point.t:\n            return\n        i = np.searchsorted(times, t)\n        changed = False\n"),
     # the smallest timeline
     dict(prop="C02", name="audit-single-point-part-maps-return-one", file="partitura/score.py",
-         old="            return lambda x: np.zeros(len(x))", new="            return lambda x: np.ones(len(x))"),
+         old="            return lambda x: np.zeros(np.shape(x))", new="            return lambda x: np.ones(np.shape(x))"),
 ]
